@@ -413,6 +413,30 @@ func runCheck(id, tier, only string, workers int, verbose bool) int {
 				okv := r.Crashed == "" && r.Rejected == "" && (r.Panic == "" || r.Panic == "<nil>") && len(r.Failed) == 0
 				pred := append([]string{}, s.Observed...)
 				got := append([]string{}, r.Observed...)
+				hasSchedule := false
+				for _, n := range s.Notes {
+					if strings.HasPrefix(n, "preempt at point:") || strings.Contains(n, "timer") {
+						hasSchedule = true
+					}
+				}
+				if !(okv && strings.Join(pred, ";") == strings.Join(got, ";")) && hasSchedule {
+					// the sample has a recorded schedule or timer firing, replayed natively with fixed
+					// pauses: on a loaded machine a pause can be too short for the goroutine that is
+					// meant to run meanwhile. Repeat with pauses three and ten times as long.
+					for _, slow := range []string{"3", "10"} {
+						os.Setenv("VERIF_SLOW", slow)
+						r2 := getRunner(j.h.Pkg).run([]string{recs[si]})
+						os.Unsetenv("VERIF_SLOW")
+						if len(r2) == 1 {
+							r = r2[0]
+							okv = r.Crashed == "" && r.Rejected == "" && (r.Panic == "" || r.Panic == "<nil>") && len(r.Failed) == 0
+							got = append([]string{}, r.Observed...)
+							if okv && strings.Join(pred, ";") == strings.Join(got, ";") {
+								break
+							}
+						}
+					}
+				}
 				if okv && strings.Join(pred, ";") == strings.Join(got, ";") {
 					validated++
 				} else {
